@@ -23,6 +23,7 @@ func runC08Gaps2(c *eng.Ctx) {
 	c08g2Registered(c)
 	c08g2CacheOwner(c)
 	c09g2TrackerBookkeeping(c, "C08.7")
+	raftTrimBoundSkip(c, "C08.7")
 }
 
 // c08g2FailEdges: the non-nil-error edges of every call of f (a failed
